@@ -171,6 +171,28 @@ pub fn compare_comments(t0: &str, t1: &str, att: &Attachment, out: &mut Outcome,
       units.push((w.tok, w.kind, vec![w.word.clone()], wi < na_imp_words));
     }
   }
+  // identical comments in several places: a lost or moved one cannot be told apart from its twins, so
+  // only the "nothing is duplicated or invented" direction is decided (word multiset of output within input)
+  {
+    let contains = |big: &Vec<String>, small: &Vec<String>| small.len() <= big.len() && big.windows(small.len().max(1)).any(|w| w == small.as_slice());
+    let has_twins = (0..units.len()).any(|i| (0..units.len()).any(|j| i != j && contains(&units[j].2, &units[i].2)));
+    if has_twins {
+      labels.push("input:identical-comments(lost/reorder not decided)".into());
+      let ma = multiset(&a_all, true);
+      let mb = multiset(&b_all, true);
+      for ((k, w), nb) in &mb {
+        let na = ma.get(&(k.clone(), w.clone())).copied().unwrap_or(0);
+        if *nb > na {
+          out.fail(
+            format!("comment-duplicated-or-invented/{k}/identical-comments"),
+            format!("comment word {w:?} ({k}) occurs {na} times in the input and {nb} times in the formatter output\ninput:\n{}\noutput:\n{}", short(t0, 1200), short(t1, 1200)),
+          );
+          break;
+        }
+      }
+      return ncomments;
+    }
+  }
   let find = |kind: Kind, words: &[String], claimed: &[bool]| -> Option<Vec<usize>> {
     let idx: Vec<usize> = (0..b_all.len()).filter(|i| b_all[*i].kind == kind).collect();
     if words.len() > idx.len() {
